@@ -46,6 +46,14 @@ ASSUMPTIONS = [
 ]
 
 KEYS = ["A", "B", "C"]
+_Y = [("Y", 0), ("Y", 1), ("Y", 2)]
+# spa.sym('...') texts with the tree each one stands for (second oracle: the tree applied to the vocabulary's pointers)
+SYM_TEXTS = [
+    ("(A + B) * (C + A)", ("mul", ("add", _Y[0], _Y[1]), ("add", _Y[2], _Y[0]))),
+    ("(A * B) + (C * A)", ("add", ("mul", _Y[0], _Y[1]), ("mul", _Y[2], _Y[0]))),
+    ("A + B", ("add", _Y[0], _Y[1])),
+    ("(B - C)", ("sub", _Y[1], _Y[2])),
+]
 SIDES = {"2": "inv2", "L": "invL", "R": "invR"}
 REFUSALS = {"SpaTypeError", "NotImplementedError", "AssertionError", "AttributeError", "ZeroDivisionError",
             "ValidationError", "TypeError"}
@@ -62,6 +70,8 @@ def tokens(t):
         return [f"S:{t[1]}"]
     if k == "Y":
         return [f"Y:{t[1]}"]
+    if k == "T":
+        return [f"T:{t[1]}"]
     if k == "Z":
         return [f"Z:{t[1]}:{t[2]}"]
     if k == "F":
@@ -90,7 +100,7 @@ def depth(t):
     return 0 if not subs else 1 + max(depth(s) for s in subs)
 
 
-ALLK = {"P", "S", "Y", "Z", "F", "N", "C", "neg", "inv", "add", "sub", "mul", "dot", "div", "rei", "tra"}
+ALLK = {"P", "S", "Y", "T", "Z", "F", "N", "C", "neg", "inv", "add", "sub", "mul", "dot", "div", "rei", "tra"}
 
 
 def contains(t, pred):
@@ -151,7 +161,13 @@ def run_program(prog):
     keyvecs_of = lambda vid: dict(zip(KEYS, prog["keys"][vid]))
     expected_src = []
     for s in srcs:
-        if s[0] == "P":
+        if s[0] == "P" and s[2][0] == "ftsp_inv":
+            # f(t, sp) -> ~sp read through an input vocabulary WITHOUT keys (a falsy object): the function still gets
+            # a Semantic Pointer of the program's algebra
+            with warnings.catch_warnings():
+                warnings.simplefilter("ignore")
+                expected_src.append(np.array((~SemanticPointer(np.array(s[3], float), algebra=alg)).v, float))
+        elif s[0] == "P":
             expected_src.append(src_expected(s[2], s[3], keyvecs_of(s[1])))
         else:
             expected_src.append(np.array([s[1]], float))
@@ -182,6 +198,10 @@ def run_program(prog):
             if oracle == 2:       # second oracle: no PointerSymbol at all, the key's pointer of the sink vocabulary
                 return vocabs[prog["sink"][1]][KEYS[t[1]]]
             return getattr(spa.sym, KEYS[t[1]])
+        if k == "T":
+            if oracle == 2:
+                return build(SYM_TEXTS[t[1]][1], mods, 2)
+            return spa.sym(SYM_TEXTS[t[1]][0])
         if k == "Z":
             if oracle:
                 return vocabs[t[2]].parse(KEYS[t[1]])
@@ -253,6 +273,10 @@ def run_program(prog):
                         nengo.Connection(nengo.Node(vec), m.input, synapse=None)
                     elif f0 == "ftsp_arr":
                         m = spa.Transcode(lambda t, sp, c=form[1]: sp.v * c, input_vocab=v, output_vocab=v)
+                        nengo.Connection(nengo.Node(vec), m.input, synapse=None)
+                    elif f0 == "ftsp_inv":
+                        v_in = spa.Vocabulary(v.dimensions, strict=True, algebra=alg)      # no keys: len(v_in) == 0
+                        m = spa.Transcode(lambda t, sp: ~sp, input_vocab=v_in, output_vocab=v)
                         nengo.Connection(nengo.Node(vec), m.input, synapse=None)
                     elif f0 == "state":
                         m = spa.State(v, subdimensions=1 if v.dimensions % 16 else 16)
@@ -350,7 +374,7 @@ def run_program(prog):
             if t[0] == "F":
                 return t[1] == sv
             return all(simple(x) for x in t[1:] if isinstance(x, tuple))
-        if all(simple(st) for st in prog["stmts"]) and any(contains(st, lambda x: x[0] == "Y") for st in prog["stmts"]):
+        if all(simple(st) for st in prog["stmts"]) and any(contains(st, lambda x: x[0] in ("Y", "T")) for st in prog["stmts"]):
             try:
                 tot2 = None
                 for st in prog["stmts"]:
@@ -522,7 +546,7 @@ class Gen:
         return ("dot", self.fixedop(vid, n - 1), self.pointer(vid, n - 1))
 
 
-SRC_FORMS = ["sp", "symstr", "psym", "exprstr", "ft_array", "ft_str", "ft_sp", "ftsp", "ftsp_arr", "state"]
+SRC_FORMS = ["sp", "symstr", "psym", "exprstr", "ft_array", "ft_str", "ft_sp", "ftsp", "ftsp_arr", "ftsp_inv", "state"]
 
 
 def make_context(rng, alg, dims, n_psrc=3, sink=None):
@@ -651,6 +675,8 @@ def prog_request(prog, result):
 def lean_feasible(prog, tier):
     """The model's vectors are functions (no sharing), so its exact evaluation costs ~ d^depth: programs with
     large dimensionality x depth are checked against the oracle only (counted as `lean-skipped`)."""
+    if any(contains(s, lambda x: x[0] == "T") for s in prog["stmts"]):
+        return False          # sym('...') texts are not part of the model's expression language (oracle only)
     dmax = max(depth(s) for s in prog["stmts"])
     d = max(prog["dims"])
     cap = 6 if tier == "quick" else 9
@@ -698,6 +724,9 @@ def run(ctx):
         ("mul", Y0, ("add", Y1, Y2)), ("mul", ("add", Y0, Y1), ("sub", Y2, Y0)), ("neg", ("mul", Y0, ("mul", Y1, Y2))),
         ("mul", ("inv", "2", ("mul", Y0, Y1)), Y2),
     ]
+    for ti in range(len(SYM_TEXTS)):
+        T_ = ("T", ti)
+        sym_shapes += [("inv", "2", T_), ("neg", T_), ("mul", Y0, T_), ("mul", T_, Y1), ("sub", Y2, T_)]
     for alg in ("hrr", "vtb", "tvtb"):
         dims = [4, 4, 4] if alg != "hrr" else [4, 4, 3]
         for t in sym_shapes:
